@@ -120,6 +120,20 @@ def gen_batch(r, bi, services=False, can=False, n_random=(6, 9), out_of_order=Tr
             decls.append({"kind": "impl", "protocol": "can", "type": "OptMsg%d" % bi, "name": None, "items": [("field", "id", idv), ("field", "bus", ("s", bus))]})
             can_bindings.append(("OptMsg%d" % bi, idv, bus))
             k += 1
+        # a CAN binding with per-signal options (byte order in both spellings, multiplexing, bitstart): they
+        # describe the packed CAN layout of other back ends; the frame carries the canonical bytes regardless
+        if k < 10:
+            add("Be%d" % bi, [("hi", 0, ("u", 16)), ("mid", 1, ("i", 32)), ("sel", 2, ("u", 4)), ("lo", 3, ("u", 12))])
+            bus = buses[k % len(buses)]
+            idv = r.choice([x for x in range(1, 2047) if x not in ids])
+            ids.append(idv)
+            decls.append({"kind": "impl", "protocol": "can", "type": "Be%d" % bi, "name": None, "items": [
+                ("field", "id", idv), ("field", "bus", ("s", bus)), ("field", "endianess", ("s", "big")),
+                ("signal", "hi", [("endianess", ("s", "big"))]),
+                ("signal", "mid", [("endianness", ("s", "big")), ("endianess", ("s", "big"))]),
+                ("signal", "lo", [("mux_count", 3), ("mux_signal", ("s", "sel")), ("bitstart", 0)])]})
+            can_bindings.append(("Be%d" % bi, idv, bus))
+            k += 1
         # dedicated small CAN messages with names of 1..12 characters
         for nm, w in (("M", 5), ("Msg%dAbcdefgh" % bi, 12), ("Cn%d" % bi, 33)):
             if k >= 10:
